@@ -313,6 +313,46 @@ def run_F(chk):
                                and x.func.attr == "_replace" and any(k.arg == "hfs" for k in x.keywords)]
                         if not rep:
                             ok = False
+            if not ok:
+                # path form (early return `if not verdict: return ...` followed by the masking code, or any other control structure):
+                # with the flag assumed true every path to a computing return passes a statement that (transitively) calls each
+                # helper, with the flag assumed false no such statement is reachable
+                cfgF = CFG(f.node)
+                stmts_ = [n_.ast for n_ in cfgF.nodes if isinstance(n_.ast, ast.stmt)]
+
+                def calls_of(st_):
+                    nodes_ = list(ast.walk(st_)) if not isinstance(st_, (ast.If, ast.For, ast.While)) else list(ast.walk(st_.test if hasattr(st_, "test") else st_.iter))
+                    front = list(nodes_)
+                    for _lvl in range(2):
+                        nx = []
+                        for x in front:
+                            if isinstance(x, ast.Call) and isinstance(x.func, ast.Name):
+                                tg_ = prog.resolve(f.module, x.func.id)
+                                if hasattr(tg_, "node") and hasattr(tg_, "params") and tg_.module is f.module and tg_.name not in helpers:
+                                    nx += list(ast.walk(tg_.node))
+                        nodes_ += nx
+                        front = nx
+                    return nodes_
+                per_helper = {h: [st_ for st_ in stmts_ if any(isinstance(x, ast.Call) and A.call_name(x) == h for x in calls_of(st_))] for h in helpers}
+                flagn = [nm for nm in names if any(isinstance(n_, ast.If) and nm in {x.id for x in ast.walk(n_.test) if isinstance(x, ast.Name)}
+                                                   for n_ in A.walk_local(f.node))]
+                rets_ = [st_ for st_ in stmts_ if isinstance(st_, ast.Return) and st_.value is not None]
+                if all(per_helper.values()) and flagn and rets_:
+                    for G_ in flagn:
+                        gT = cfgF.specialised({G_: True})
+                        gF = cfgF.specialised({G_: False})
+                        liveT = gT.reach_from({gT.entry.id})
+                        liveF = gF.reach_from({gF.entry.id})
+                        final_ = [r_ for r_ in rets_ if cfgF.node_of[r_].id in liveT and any(cfgF.path_exists(hs_[0], r_) for hs_ in per_helper.values())]
+                        okT = bool(final_) and all(gT.must_pass([r_], hs_) for r_ in final_ for hs_ in per_helper.values())
+                        okF = all(cfgF.node_of[st_].id not in liveF for hs_ in per_helper.values() for st_ in hs_)
+                        if okT and okF:
+                            ok = True
+                            if replaces:
+                                allnodes = [x for hs_ in per_helper.values() for st_ in hs_ for x in calls_of(st_)]
+                                between = [st_ for st_ in stmts_ if any(isinstance(x, ast.Call) and isinstance(x.func, ast.Attribute) and x.func.attr == "_replace"
+                                                                          and any(k.arg == "hfs" for k in x.keywords) for x in calls_of(st_))]
+                                ok = bool(between) and all(cfgF.node_of[st_].id not in liveF for st_ in between)
             # a verdict obtained pair by pair inside a loop must be accumulated (or-ed) into the flag that guards after the loop
             par = A.enclosing_map(f.node)
             loop = None
